@@ -551,3 +551,171 @@ Fixpoint cargs_eqb (a b : list carg) : bool :=
   end.
 Definition chk40_seq (ds : M_C30.decls) (ranks : list (option nat)) (args a1 a2 : list carg) : bool :=
   cargs_eqb (seq_args ds ranks args) a1 && cargs_eqb (seq_args ds ranks a1) a2.
+
+(* ------------------------------------------------------------------------------------------ *)
+(** * 8. do_remove_dead_code with SELECT CASE (RemoveDeadCodeTransformer.visit_MultiConditional)
+
+    The shared MiniF core has no SELECT CASE: own source-level statements.  [KSel sel vals bodies dflt] is
+    Loki's MultiConditional (values and bodies are parallel tuples).  The transformer visits ALL bodies and
+    the default body first; then the first case one of whose values provably equals the selector
+    ([symbolic_op(expr, eq, v)]: here both integer literals with the same value, or the same variable) is
+    spliced in place of the construct; a constant selector WITHOUT a matching value is not pruned (the code
+    only falls back to the default body for a selector that simplifies to [.false.]).  Outside the modelled
+    class ([None]): selectors / case values other than integer literals and variables, a case body that is
+    empty after pruning (Transformer.visit_tuple then drops it and the remaining bodies shift), tuples of
+    different length.  IF is pruned exactly as in [M_C32.dce1]. *)
+Inductive kstmt : Type :=
+| KS     (s : stmt)                                  (* assignment, store, call, comment: left alone *)
+| KDo    (v : string) (lo hi : expr) (st : option expr) (body : list kstmt)
+| KWhile (c : expr) (body : list kstmt)
+| KIf    (c : expr) (tb eb : list kstmt)
+| KSel   (sel : expr) (vals : list (list expr)) (bodies : list (list kstmt)) (dflt : list kstmt).
+
+Definition sel_atom (e : expr) : bool := match e with EInt _ | EVar _ => true | _ => false end.
+
+Definition kmatch (sel v : expr) : bool :=
+  match sel, v with
+  | EInt a, EInt b => a =? b
+  | EVar x, EVar y => String.eqb x y
+  | _, _ => false
+  end.
+
+(** index of the first case with a matching value *)
+Fixpoint first_match (sel : expr) (vals : list (list expr)) : option nat :=
+  match vals with
+  | [] => None
+  | vs :: r => if existsb (kmatch sel) vs then Some O else option_map S (first_match sel r)
+  end.
+
+Definition k_is_elseif (e : list kstmt) : bool := match e with [KIf _ _ _] => true | _ => false end.
+Definition k_is_nil (e : list kstmt) : bool :=
+  match e with
+  | [] => true
+  | KIf _ _ _ :: _ :: _ => true
+  | _ => false
+  end.
+Definition is_nil_l {A} (l : list A) : bool := match l with [] => true | _ => false end.
+
+Definition sel_class (sel : expr) (vals : list (list expr)) (bodies : list (list kstmt)) : bool :=
+  sel_atom sel && forallb (forallb sel_atom) vals && Nat.eqb (List.length vals) (List.length bodies)
+  && negb (existsb is_nil_l bodies).
+
+Fixpoint kdce1 (u : bool) (st : kstmt) : option (list kstmt) :=
+  let fix go (l : list kstmt) : option (list kstmt) :=
+    match l with
+    | [] => Some []
+    | s :: r => match kdce1 u s, go r with Some a, Some b => Some (a ++ b)%list | _, _ => None end
+    end in
+  let fix gos (ll : list (list kstmt)) : option (list (list kstmt)) :=
+    match ll with
+    | [] => Some []
+    | l :: r => match go l, gos r with Some a, Some b => Some (a :: b) | _, _ => None end
+    end in
+  match st with
+  | KS _ => Some [st]
+  | KDo v lo hi stp b => match go b with Some b' => Some [KDo v lo hi stp b'] | None => None end
+  | KWhile c b => match go b with Some b' => Some [KWhile c b'] | None => None end
+  | KIf c t e =>
+      match (if u then M_C32.simp_cond false [] c else Some c), go t, go e with
+      | Some c', Some t', Some e' =>
+          match c' with
+          | ELog true => Some t'
+          | ELog false => Some e'
+          | _ => if k_is_elseif e && k_is_nil e' then None else Some [KIf c' t' e']
+          end
+      | _, _, _ => None
+      end
+  | KSel sel vals bodies dflt =>
+      match gos bodies, go dflt with
+      | Some bs, Some d =>
+          if sel_class sel vals bs then
+            match first_match sel vals with
+            | Some i => nth_error bs i
+            | None => Some [KSel sel vals bs d]
+            end
+          else None
+      | _, _ => None
+      end
+  end.
+
+Fixpoint kdce (u : bool) (l : list kstmt) : option (list kstmt) :=
+  match l with
+  | [] => Some []
+  | s :: r => match kdce1 u s, kdce u r with Some a, Some b => Some (a ++ b)%list | _, _ => None end
+  end.
+
+(** normal form *)
+Definition no_match (sel : expr) (vals : list (list expr)) : bool :=
+  match first_match sel vals with None => true | Some _ => false end.
+Fixpoint knf (u : bool) (s : kstmt) : bool :=
+  match s with
+  | KS _ => true
+  | KDo _ _ _ _ b => forallb (knf u) b
+  | KWhile _ b => forallb (knf u) b
+  | KIf c t e => cond_nf u c && forallb (knf u) t && forallb (knf u) e
+  | KSel sel vals bodies dflt =>
+      sel_class sel vals bodies && no_match sel vals
+      && forallb (forallb (knf u)) bodies && forallb (knf u) dflt
+  end.
+Definition knf_l (u : bool) (p : list kstmt) : bool := forallb (knf u) p.
+
+Fixpoint kconds_stable_stmt (s : kstmt) : bool :=
+  match s with
+  | KS _ => true
+  | KDo _ _ _ _ b => forallb kconds_stable_stmt b
+  | KWhile _ b => forallb kconds_stable_stmt b
+  | KIf c t e => cond_stable c && forallb kconds_stable_stmt t && forallb kconds_stable_stmt e
+  | KSel _ _ bodies dflt => forallb (forallb kconds_stable_stmt) bodies && forallb kconds_stable_stmt dflt
+  end.
+Definition kconds_stable (p : list kstmt) : bool := forallb kconds_stable_stmt p.
+
+(** structural equality *)
+Fixpoint lle_eqb (a b : list (list expr)) : bool :=
+  match a, b with
+  | [], [] => true
+  | x :: r, y :: q => list_expr_eqb x y && lle_eqb r q
+  | _, _ => false
+  end.
+
+Fixpoint kstmt_eqb (a b : kstmt) : bool :=
+  let fix leqb (l1 l2 : list kstmt) : bool :=
+    match l1, l2 with
+    | [], [] => true
+    | x :: r1, y :: r2 => kstmt_eqb x y && leqb r1 r2
+    | _, _ => false
+    end in
+  let fix lleqb (l1 l2 : list (list kstmt)) : bool :=
+    match l1, l2 with
+    | [], [] => true
+    | x :: r1, y :: r2 => leqb x y && lleqb r1 r2
+    | _, _ => false
+    end in
+  match a, b with
+  | KS s, KS t => stmt_eqb s t
+  | KDo v lo hi st b1, KDo w lo' hi' st' b2 =>
+      String.eqb v w && expr_eqb lo lo' && expr_eqb hi hi' && oexpr_eqb st st' && leqb b1 b2
+  | KWhile c b1, KWhile c' b2 => expr_eqb c c' && leqb b1 b2
+  | KIf c t e, KIf c' t' e' => expr_eqb c c' && leqb t t' && leqb e e'
+  | KSel s v b d, KSel s' v' b' d' => expr_eqb s s' && lle_eqb v v' && lleqb b b' && leqb d d'
+  | _, _ => false
+  end.
+Fixpoint kstmts_eqb (l1 l2 : list kstmt) : bool :=
+  match l1, l2 with
+  | [], [] => true
+  | x :: r1, y :: r2 => kstmt_eqb x y && kstmts_eqb r1 r2
+  | _, _ => false
+  end.
+
+(** tie: as [chk40_dce] ([None] for Loki = ValidationError) *)
+Definition chk40_kdce (u : bool) (p : list kstmt) (o1 o2 : option (list kstmt)) : bool :=
+  match kdce u p, o1 with
+  | Some q, Some p1 =>
+      kstmts_eqb q p1 &&
+      match kdce u p1, o2 with
+      | Some q2, Some p2 => kstmts_eqb q2 p2 && (negb u || kconds_stable p1)
+      | None, _ => u
+      | Some _, None => false
+      end
+  | None, _ => true
+  | Some _, None => false
+  end.
